@@ -237,9 +237,9 @@ def specBit0 (I : Input) (r c : Nat) : Bool :=
 /-- bit 6: left pixel masked (not on the border) -/
 def specBit6 (I : Input) (r c : Nat) : Bool := !isBorder I r c && I.hasL && (I.mL r c == Cls.invalid)
 
-/-- bit 2: a proper part of the interval falls outside the right image -/
+/-- bit 2: part of the interval falls outside the right image (and part of it inside) -/
 def specBit2 (I : Input) (r c : Nat) : Bool :=
-  !isBorder I r c && !(inSet I c).isEmpty && ((inSet I c).length != (dispList I.dmin I.dmax).length)
+  !isBorder I r c && !(inSet I c).isEmpty && (dispList I.dmin I.dmax).any fun d => !inIdx I c d
 
 /-- bit 7: the interval reaches the right image and every in-image right candidate is masked -/
 def specBit7 (I : Input) (r c : Nat) : Bool :=
